@@ -115,6 +115,29 @@ def near_pattern_formulas(props, rng):
     return out
 
 
+KEYWORDISH_NAMES = ["T", "F", "TRUE", "FALSE", "t", "f", "tt", "True_", "true1", "False0", "E", "A", "EFx", "AGa",
+                    "G", "X", "U", "W", "V1", "x", "var0", "In", "in", "EUa", "AX_", "Tr", "one", "o1"]
+
+
+def gen_C01_names(chk):
+    """networks whose variables have names that resemble keywords, constants or operators of the
+    formula language but are ordinary propositions (own PRNG stream)"""
+    import random as _random, re
+    rng = _random.Random("C01-names-%s" % chk.seed)
+    for nm in ["N02", "N05", "N06", "N16", "N21"]:
+        base = gen.CURATED[nm]
+        for r in range(cnt(chk, 3, 8)):
+            na, nb = rng.sample(KEYWORDISH_NAMES, 2)
+            if r == 0:
+                na, nb = rng.choice([("T", "F"), ("TRUE", "FALSE"), ("T", "TRUE"), ("F", "t")])
+            net = re.sub(r"\b(a|b)\b", lambda m: na if m.group(1) == "a" else nb, base)
+            props = net_props(net)
+            fs = [gen.T("P", q) for q in props] + [("U", "EF", gen.T("P", props[0])), ("U", "AG", ("U", "Not", gen.T("P", props[-1])))]
+            fs += [gen.random_formula(rng, rng.randint(1, 5), props, max_vars=1) for _ in range(3)]
+            chk.add_eval(net, 1, "s", fs, tag="keywordish-names", netname=nm + "-renamed")
+            chk.add_eval(net, 1, "st", fs[:3], tag="keywordish-names-tree", netname=nm + "-renamed")
+
+
 def gen_C01(chk):
     rng = chk.rng
     ws = worlds(chk, n_random=cnt(chk, 12, 40))
@@ -552,6 +575,97 @@ def cross_domain_batch(rng, props, ext):
     return fs
 
 
+def domain_reuse_batch(rng, props, labels=("d", "e2", "p")):
+    """closed formulae with two or three nested quantifiers over the SAME variable names, whose domain
+    labels are reused between formulae while the restrictions around them change: the same (label,
+    variable) pair below a restricted, a differently restricted and an unrestricted outer variable, and
+    one label moving from the outer to the middle variable (whatever an evaluator derives from a domain
+    depends on the whole scope, not on the label and the variable alone)"""
+    V = lambda v: gen.T("V", v)
+    depth = rng.choice([2, 2, 3])
+    names = ["x", "y", "z"][:depth]
+    def body():
+        r = rng.random()
+        if r < 0.3:
+            parts = [V("x")] + [("U", rng.choice(["EF", "EX", "AX"]), V(v)) for v in names[1:]]
+            b = parts[0]
+            for q in parts[1:]:
+                b = ("B", "And", b, q)
+            return b
+        if r < 0.55:
+            b = ("U", rng.choice(["EF", "EX"]), V(names[-1]))
+            for v in reversed(names[:-1]):
+                b = ("H", "Jump", v, None, ("B", rng.choice(["And", "Or"]), b, ("U", "EF", V(v)))) if rng.random() < 0.5 else ("H", "Jump", v, None, b)
+            return b
+        for _ in range(20):
+            b = gen.random_formula(rng, rng.randint(2, 5), props, scope=list(names), max_vars=0, w_hybrid=0.3)
+            if gen.free_vars(b) == set(names):
+                return b
+        return ("B", "And", V("x"), ("U", "EF", V(names[-1])))
+    b = body()
+    a, c = rng.sample(list(labels), 2)
+    def build(doms, quants):
+        f = b
+        for v, d, q in reversed(list(zip(names, doms, quants))):
+            f = ("H", q, v, d, f)
+        return f
+    qs = [rng.choice(gen.QUANTS) for _ in names]
+    if rng.random() < 0.5:
+        qs = ["Exists"] * depth
+    if depth == 2:
+        variants = [(a, c), (None, c), (c, c), (a, None)]
+    else:
+        variants = [(a, None, c), (None, a, c), (None, None, c), (a, a, c), (c, a, None)]
+    rng.shuffle(variants)
+    fs = [build(d, qs) for d in variants[:rng.randint(2, 3)]]
+    if rng.random() < 0.4:
+        fs = [("B", rng.choice(["And", "Or"]), fs[0], fs[1])] + fs[2:] + [fs[1]]
+    return fs
+
+
+def gen_C04_domains(chk):
+    """batches of formulae that reuse domain labels under changing outer restrictions (own PRNG stream)"""
+    import random as _random
+    rng = _random.Random("C04-domains-%s" % chk.seed)
+    nets = [(nm, gen.CURATED[nm]) for nm in ["N02", "N05", "N06", "N09", "N21"]]
+    for i in range(cnt(chk, 3, 6)):
+        net = gen.random_network(rng, max_n=3, max_bits=6)
+        if net_props(net):
+            nets.append(("D%d" % i, net))
+    for nm, net in nets:
+        props = net_props(net)
+        for j in range(cnt(chk, 5, 6)):
+            fs = domain_reuse_batch(rng, props)[:3]
+            k = max(gen.quant_depth(f) for f in fs)
+            if len(props) * (1 + k) > 12:
+                continue
+            ctx = [("p", ctx_spec(rng)), ("d", ctx_spec(rng)), ("e2", ctx_spec(rng))]
+            if j % 3 == 1:
+                a, b2 = rng.choice(props), rng.choice(props)
+                ctx = [("p", "f" + gen.hx("%s | %s" % (b2, a))), ("d", "f" + gen.hx("%s & ~%s" % (a, b2) if a != b2 else a)),
+                       ("e2", "f" + gen.hx("~" + a))]
+            if j % 3 == 2:
+                ctx = [("p", ctx_spec(rng)), ("d", rng.choice(["k%d.1.2", "k%d.1.4", "r%d.1.4"]) % rng.randint(1, 10 ** 6)),
+                       ("e2", "f" + gen.hx("!{x}: AX {x}"))]
+            group = []
+            perms = list(itertools.permutations(range(len(fs))))
+            rng.shuffle(perms)
+            for perm in [tuple(range(len(fs)))] + perms[:2]:
+                cid = chk.add_eval(net, k, "es", [fs[i] for i in perm], ctx=ctx, tag="domains-perm", netname=nm)
+                chk.cases[cid]["perm"] = perm
+                group.append(cid)
+            for i, f in enumerate(fs):
+                cid = chk.add_eval(net, k, "es", [f], ctx=ctx, tag="domains-single", netname=nm)
+                chk.cases[cid]["perm"] = (i,)
+                group.append(cid)
+            cid = chk.add_eval(net, k, "esc", fs, ctx=ctx, tag="domains-nocache", netname=nm)
+            chk.cases[cid]["perm"] = tuple(range(len(fs)))
+            group.append(cid)
+            for g in group:
+                chk.cases[g]["group"] = group
+                chk.cases[g]["nformulas"] = len(fs)
+
+
 def gen_C04(chk):
     rng = chk.rng
     ws = worlds(chk, quick_names=["N02", "N05", "N06", "N07", "N09", "N16", "N21", "N22"],
@@ -768,6 +882,45 @@ def gen_C10(chk):
                     chk.cases[cid]["pair"] = base
 
 
+def gen_C10_patterns(chk):
+    """the replaced closed sub-formula is one of the shortcut patterns (or contains one) and occurs first
+    below a quantifier restricted to a domain, whose variable it does not mention, and again outside it
+    (own PRNG stream)"""
+    import random as _random
+    rng = _random.Random("C10-patterns-%s" % chk.seed)
+    V = lambda v: gen.T("V", v)
+    atp = ("H", "Bind", "y", None, ("U", "AG", ("U", "EF", V("y"))))
+    stp = ("H", "Bind", "y", None, ("U", "AX", V("y")))
+    nets = [(nm, gen.CURATED[nm]) for nm in ["N05", "N06", "N09", "N16", "N21", "N22"]]
+    for i in range(cnt(chk, 3, 8)):
+        net = gen.random_network(rng, max_n=3, max_bits=5)
+        if net_props(net):
+            nets.append(("P%d" % i, net))
+    for nm, net in nets:
+        props = net_props(net)
+        if len(props) * 3 > 10:
+            continue
+        for j in range(cnt(chk, 6, 8)):
+            pr = gen.T("P", rng.choice(props))
+            s0 = rng.choice([atp, atp, atp, atp, stp, ("U", "EF", atp), ("B", "And", pr, atp), ("U", "Not", stp)])
+            wrap = lambda z: rng.choice([z, ("U", "EF", z), ("B", rng.choice(["And", "Or"]), pr, z)])
+            inner = ("H", rng.choice(gen.QUANTS), "x", "d", ("H", "Jump", "x", None, wrap(s0)))
+            outer = rng.choice([s0, ("H", "Exists", "z", None, ("H", "Jump", "z", None, ("B", "And", pr, s0))),
+                                ("U", "Not", s0), ("H", rng.choice(gen.QUANTS), "z", None, ("B", "Or", V("z"), s0))])
+            op = rng.choice(["And", "Or"])
+            for g0 in (("B", op, inner, outer), ("B", op, outer, inner)):
+                g1 = replace_subtree(g0, s0, gen.T("W", "w0"))
+                a = rng.choice(props)
+                b = rng.choice(props)
+                dspec = rng.choice([ctx_spec(rng), "f" + gen.hx(a), "f" + gen.hx("~" + a), "f" + gen.hx("~%s & %s" % (a, b)),
+                                    "f" + gen.hx("%s & ~(!{x}: AG EF {x})" % a), "k%d.1.2" % rng.randint(1, 10 ** 6)])
+                kk = gen.quant_depth(g0)
+                b0 = chk.add_eval(net, kk, "es", [g0], ctx=[("d", dspec)], tag="pattern-dom-base", netname=nm)
+                c1 = chk.add_eval(net, kk, "es", [g1], ctx=[("d", dspec), ("w0", "f" + gen.hx(gen.render(s0)))],
+                                  tag="pattern-dom-subst", netname=nm)
+                chk.cases[c1]["pair"] = b0
+
+
 # ------------------------------------------------------------------ C11
 def gen_C11(chk):
     """fixed-point laws, dualities, monotonicity with arbitrary argument sets (wild-cards)"""
@@ -905,6 +1058,38 @@ def gen_C12(chk):
                     chk.cases[ic]["equal_pairs"] = [(0, 1), (1, 2)]
 
 
+def gen_C12_unsafe(chk):
+    """the attractor shortcut through the entry point that skips the self-loops (model_check_formula_unsafe_ex,
+    whose documentation only excludes the steady-state pattern): recognised pattern against the defeated
+    spelling and against the standard entry point (own PRNG stream)"""
+    import random as _random
+    rng = _random.Random("C12-unsafe-%s" % chk.seed)
+    V = lambda v: gen.T("V", v)
+    att = lambda x: ("H", "Bind", x, None, ("U", "AG", ("U", "EF", V(x))))
+    dft = lambda x: ("H", "Bind", x, None, ("U", "AG", ("U", "EF", ("B", "And", V(x), V(x)))))
+    nets = [(nm, gen.CURATED[nm]) for nm in gen.CURATED]
+    for i in range(cnt(chk, 4, 12)):
+        net = gen.random_network(rng, max_n=3, max_bits=6)
+        if net_props(net):
+            nets.append(("U%d" % i, net))
+    for nm, net in nets:
+        props = net_props(net)
+        if len(props) * 3 > 10:
+            continue
+        pr = gen.T("P", rng.choice(props))
+        wraps = [lambda t: t, lambda t: ("U", "Not", t), lambda t: ("U", "EF", t), lambda t: ("B", "And", pr, t),
+                 lambda t: ("H", "Exists", "z", None, ("H", "Jump", "z", None, ("B", "And", pr, t))),
+                 lambda t: ("B", "EU", pr, t), lambda t: ("H", "Forall", "z", None, ("B", "Or", V("z"), t))]
+        for w in wraps:
+            a, b = w(att("y")), w(dft("y"))
+            k = gen.quant_depth(a)
+            ia = chk.add_eval(net, k, "u", [a], tag="unsafe-pattern", netname=nm)
+            ib = chk.add_eval(net, k, "u", [b], tag="unsafe-defeated", netname=nm)
+            ic = chk.add_eval(net, k, "", [a], tag="standard-pattern", netname=nm)
+            chk.cases[ia]["pair"] = ib
+            chk.cases[ic]["pair"] = ia
+
+
 # ------------------------------------------------------------------ C13
 def gen_C13(chk):
     rng = chk.rng
@@ -1040,6 +1225,29 @@ def gen_C02_wide(chk):
                   meta={"net": nm})
 
 
+def gen_C02_bigdomain(chk):
+    """README equivalences with a domain whose BDD has tens of thousands of nodes (a ring of 32
+    variables, the domain pairs variable i with variable i + 16), by BDD equality"""
+    from .shellprops import add_shell
+    n = 32
+    vs = ["g%02d" % i for i in range(n)]
+    net = "%s -| %s\n$%s: !%s\n" % (vs[-1], vs[0], vs[0], vs[-1])
+    net += "".join("%s -> %s\n$%s: %s\n" % (vs[i - 1], vs[i], vs[i], vs[i - 1]) for i in range(1, n))
+    dom = " | ".join("(%s & %s)" % (vs[i], vs[i + n // 2]) for i in range(n // 2))
+    p = "%s & ~%s" % (vs[3], vs[20])
+    pairs = [("V{x} in %d%: @{x}: %d%", "V{x}: @{x}: (%d% => %d%)"),
+             ("V{x} in %%d%%: @{x}: (%s)" % p, "V{x}: @{x}: (%%d%% => (%s))" % p),
+             ("3{x} in %%d%%: @{x}: (%s)" % p, "3{x}: @{x}: (%%d%% & (%s))" % p),
+             ("!{x} in %%d%%: (%s)" % p, "!{x}: (%%d%% & (%s))" % p),
+             ("V{x} in %d%: @{x}: %d%", "true")]
+    fs = []
+    for x, y in pairs:
+        fs += [x, y]
+    ctx = "%s=f%s" % (gen.hx("d"), gen.hx(dom))
+    add_shell(chk, "EQV", ["1", "A:" + gen.hx(net), ctx, ",".join(gen.hx(f) for f in fs)], tag="big-domain",
+              meta={"net": "ring32"})
+
+
 def long_wildcard_batch(chk):
     """a batch with far more than a hundred pending duplicates next to a wild-card proposition"""
     rng = chk.rng
@@ -1060,6 +1268,32 @@ def long_wildcard_batch(chk):
     chk.cases[b]["group"] = [a, b]
     chk.cases[a]["perm"] = tuple(range(len(batch)))
     chk.cases[b]["perm"] = tuple(range(len(batch)))
+
+
+def gen_C15_nonuniform(chk):
+    """graphs whose network variables have DIFFERENT numbers of spare copies (all at least the nesting
+    depth; built by hand as the API allows): the sanitised result is the one of the uniform graph"""
+    import random as _random
+    rng = _random.Random("C15-nonuniform-%s" % chk.seed)
+    nets = [(nm, gen.CURATED[nm]) for nm in ["N05", "N06", "N09", "N16", "N21"]]
+    for nm, net in nets:
+        props = net_props(net)
+        if len(props) < 2:
+            continue
+        for j in range(cnt(chk, 4, 10)):
+            f = gen.random_formula(rng, rng.randint(2, 6), props, max_vars=2, w_hybrid=0.6)
+            d = gen.quant_depth(f)
+            if d < 1 or len(props) * (3 + d) > 14:
+                continue
+            group = [chk.add_eval(net, d, "s", [f], tag="uniform", netname=nm)]
+            for m in ("N", "M"):
+                group.append(chk.add_eval(net, d, "s" + m, [f], tag="nonuniform", netname=nm))
+            if j % 2 == 0:
+                group.append(chk.add_eval(net, d, "st" + rng.choice("NM"), [f], tag="nonuniform-tree", netname=nm))
+            for g in group:
+                chk.cases[g]["group"] = group
+                chk.cases[g]["perm"] = (0,)
+                chk.cases[g]["nformulas"] = 1
 
 
 # ------------------------------------------------------------------ C15
